@@ -1322,6 +1322,41 @@ def generator_names():
     return gens
 
 
+def value_generator_names():
+    """generator functions that hand a RESULT to their caller by yielding it: some `yield e` where e is neither the constant
+    0/1 nor the loop variable of an enclosing loop over a generator call (that is just forwarding).  Loops over such a
+    callee must separate the 0/1 progress values from the final value."""
+    root = _os.path.join(_source.REPO, 'tlslite')
+    gens = generator_names()
+    out = set()
+    for dp, dn, fns in _os.walk(root):
+        for f in fns:
+            if not f.endswith('.py'):
+                continue
+            tree = _source.module_ast(_os.path.join(dp, f))
+            for fn in ast.walk(tree):
+                if not isinstance(fn, ast.FunctionDef):
+                    continue
+                own = _own_nodes(fn)
+                fwd = set()
+                for lp in own:
+                    if isinstance(lp, ast.For) and isinstance(lp.iter, ast.Call) and isinstance(lp.target, ast.Name):
+                        callee = lp.iter.func.attr if isinstance(lp.iter.func, ast.Attribute) else getattr(lp.iter.func, 'id', None)
+                        if callee in gens:
+                            fwd.add(lp.target.id)
+                for y in own:
+                    if isinstance(y, ast.Yield):
+                        v = y.value
+                        if v is None or (isinstance(v, ast.Constant) and v.value in (0, 1) and type(v.value) is int):
+                            if v is None:
+                                out.add(fn.name)
+                            continue
+                        if isinstance(v, ast.Name) and v.id in fwd:
+                            continue
+                        out.add(fn.name)
+    return out
+
+
 def _functions(tree):
     """(qualified name, FunctionDef) for every function, methods as Class.name"""
     out = []
@@ -1406,6 +1441,7 @@ class YieldTransparencyTask(AstTask):
 
     def run(self, reg, meta):
         gens = generator_names()
+        valued = value_generator_names()
         path = _os.path.join(_source.REPO, 'tlslite', self.fname)
         tree = _source.module_ast(path)
         n = 0
@@ -1423,6 +1459,14 @@ class YieldTransparencyTask(AstTask):
                 self.holds('loop[%s#%d over %s]:forwards-exactly-0/1-immediately' % (qn, k, callee), 'ast-idiom',
                            idiom is not None, reason='line %d: %s' % (lp.lineno, why),
                            where='tlslite/%s:%d' % (self.fname, lp.lineno), qual='tlslite/%s:%s' % (self.fname, qn))
+                in_gen = any(isinstance(x, (ast.Yield, ast.YieldFrom)) for x in _own_nodes(fn))
+                # (a blocking wrapper, itself no generator, may drain the callee and use the last value: TLSRecordLayer.read)
+                if callee in valued and (idiom == 'passthrough' or (idiom == 'drain' and in_gen)):
+                    # the callee ends by yielding its result: forwarding everything (or dropping everything) treats that
+                    # result as a progress value -- the asynchronous caller then sees a non-0/1 value / loses the result
+                    self.holds('loop[%s#%d over %s]:result-of-a-value-yielding-callee-is-separated-from-0/1' % (qn, k, callee), 'ast-idiom',
+                               False, reason='line %d: %s yields a result, the loop is a plain %s' % (lp.lineno, callee, idiom),
+                               where='tlslite/%s:%d' % (self.fname, lp.lineno), qual='tlslite/%s:%s' % (self.fname, qn))
         meta['paths'] = n
         meta['assumptions'] = ['generator calls are recognised by callee *name* (any function of that name in tlslite '
                                'that contains yield); idiom counts: %s' % sorted(counts.items(), key=str)]
